@@ -27,9 +27,9 @@ from vf.instruments import pipeline_main
 LEVEL = "exploration"
 RULE = (
     "per table (300..900 PSMs, tie-free features, spectrum multiplicity 1..4, rows shuffled or grouped by spectrum, "
-    "dedup on/off, learners linear/svc): baseline vs variants {each of the six chunk-size constants in "
+    "dedup on/off, learners linear / svc / an order-sensitive online learner): baseline vs variants {each of the six chunk-size constants in "
     "{1,2,3,7,n-1,n,n+1,ceil(n/2), sizes leaving a 1-row last chunk}, workers {2,3,4,8,16} with seeded delays, "
-    "Parquet row groups {1,3,prime,n,default}}; env class: the same comparison with MOKAPOT_* variables in fresh "
+    "Parquet row groups {1,3,prime,n,default}, and Parquet or several workers combined with a chunk size}; env class: the same comparison with MOKAPOT_* variables in fresh "
     "interpreters. Non-trivial = a variant whose chunk size is smaller than the table, or >1 worker with >=2 "
     "threads observed, or Parquet input; distinct = (table seed, variant)."
 )
@@ -162,7 +162,9 @@ def run_inproc(case):
         tab = make_table(rng, case)
         n = len(tab["df"])
         pin = psm.write_pin(tab, d / "t.pin")
-        common = dict(learner=["linear", "svc"][case["index"] % 2], folds=int(2 + case["index"] % 3), seed=int(rng.integers(1 << 30)),
+        # 'online' is a deterministic learner whose result depends on the order of its training rows: if chunking or
+        # thread timing changed the order in which training rows are assembled, its scores would change
+        common = dict(learner=["linear", "svc", "online"][case["index"] % 3], folds=int(2 + case["index"] % 3), seed=int(rng.integers(1 << 30)),
                       test_fdr=0.1, train_fdr=0.1, max_iter=2, dedup=bool(case["index"] % 4 != 3), rollup=True,
                       peps_algorithm=["kde_nnls", "qvality", "kde_nnls"][case["index"] % 3])
         base = pipeline_main.run(dict(common, paths=[str(pin)], dest=str(d / "base"), workers=1))
@@ -176,7 +178,7 @@ def run_inproc(case):
         variants = []
         vals = chunk_values(rng, n)
         for k in range(case["nvar"]):
-            kind = ["chunk", "chunk", "chunk", "workers", "parquet", "chunk"][k % 6]
+            kind = ["chunk", "chunk", "parquet+chunk", "workers", "parquet", "chunk", "workers+chunk"][k % 7]
             if kind == "chunk":
                 const = CONSTS[(case["index"] + k) % len(CONSTS)]
                 v = int(rng.choice(vals))
@@ -185,14 +187,23 @@ def run_inproc(case):
                 variants.append({"kind": "chunk", "const": const, "value": v})
             elif kind == "workers":
                 variants.append({"kind": "workers", "workers": int(rng.choice([2, 3, 4, 8, 16])), "delay": 0.003})
-            else:
+            elif kind == "parquet":
                 variants.append({"kind": "parquet", "row_group": int(rng.choice([1, 3, 37, n, 10**6]))})
+            else:
+                const = CONSTS[(case["index"] + k) % len(CONSTS)]
+                v = int(rng.choice(vals)) if const != "CHUNK_SIZE_COLUMNS_FOR_DROP_COLUMNS" else int(rng.integers(1, 26))
+                if kind == "parquet+chunk":
+                    variants.append({"kind": "parquet", "row_group": int(rng.choice([1, 3, 37, n, 10**6])), "const": const, "value": v})
+                else:
+                    variants.append({"kind": "workers", "workers": int(rng.choice([2, 3, 8])), "delay": 0.003, "const": const, "value": v})
         nt = 0
         keys = []
         for vi, v in enumerate(variants):
             spec = dict(common, dest=str(d / f"v{vi}"), workers=1, paths=[str(pin)])
-            if v["kind"] == "chunk":
+            if v.get("const"):
                 spec["chunk_sizes"] = {v["const"]: v["value"]}
+            if v["kind"] == "chunk":
+                pass
             elif v["kind"] == "workers":
                 spec.update(workers=v["workers"], delay=v["delay"])
             else:
@@ -203,14 +214,14 @@ def run_inproc(case):
             vfiles = read_files(d / f"v{vi}") if out["status"] == "ok" else {}
             # identical inputs must give identical scores (1e-9); for text vs Parquet the features differ by one ulp
             # (pandas' float parser) and LinearSVC's iterative solver (tol 1e-4) may stop elsewhere
-            loose = common["learner"] != "linear" and v["kind"] == "parquet"
+            loose = common["learner"] == "svc" and v["kind"] == "parquet"
             diff = compare(base, out, bfiles, vfiles, score_rtol=1e-4 if loose else 1e-9)
             if diff:
                 res.violate(diff[0], v.get("const") or v["kind"], variant=v, detail=diff[1], **extra)
             if v["kind"] == "workers":
                 res.count("multiworker_runs")
                 res.count("threads_seen_in_multiworker_runs", out.get("threads", 0))
-            if (v["kind"] == "chunk" and v["value"] < n) or v["kind"] == "parquet" or (v["kind"] == "workers" and out.get("threads", 0) >= 2):
+            if (v.get("const") and v["value"] < n) or v["kind"] == "parquet" or (v["kind"] == "workers" and out.get("threads", 0) >= 2):
                 nt += 1
                 keys.append(f"{case['seed']}/{case['index']}/{json.dumps(v, sort_keys=True)}")
             if len(res["violations"]) >= 4:
